@@ -12,6 +12,6 @@ assert n[1]==1,'pattern not found'
 open(p,'w').write(n[0])
 PY
 [ $? -eq 0 ] || { rm -rf $d; exit 9; }
-SA_REPO=$d SA_EVIDENCE_DIR=$d/ev SA_OUT_DIR=$d/out /verif/check $prop | grep -v '^VIOLATION' | head -${5:-6}
+SA_REPO=$d SA_EVIDENCE_DIR=$d/ev SA_OUT_DIR=$d/out /verif/check $prop | grep -E '^  |ANALYSIS|obligations' | cut -c1-220 | head -${5:-6}
 echo "rc=${PIPESTATUS[0]}"
 rm -rf $d
